@@ -341,6 +341,7 @@ func (s *wscenario) finish(base int) (op string, impl string) {
 	case <-s.closed:
 	case <-time.After(time.Until(deadline)):
 		closeState = "stuck"
+		noteStuck()
 	}
 	var pending []int
 	for c, d := range s.done {
@@ -503,6 +504,9 @@ func writerPart(seed int64) {
 	for rep := 0; rep < reps; rep++ {
 		for kind := 0; kind < 8; kind++ {
 			n++
+			if tooManyStuck() {
+				return
+			}
 			if only("wclose", n) {
 				op, impl := steered(kind, scRand(seed, 1, n), uint64(seed)<<20+uint64(n))
 				emitSc(n, op, impl)
@@ -511,6 +515,9 @@ func writerPart(seed int64) {
 	}
 	for i := 0; i < nrand; i++ {
 		n++
+		if tooManyStuck() {
+			return
+		}
 		if only("wclose", n) {
 			op, impl := randomScenario(scRand(seed, 1, n), uint64(seed)<<20+uint64(n))
 			emitSc(n, op, impl)
